@@ -16,6 +16,7 @@ from __future__ import annotations
 import base64
 import functools
 import logging
+import os
 import random
 import time
 from collections import deque
@@ -129,18 +130,20 @@ IMAP_CMDS: dict[str, list[bytes]] = {
     # refused in every state
     'UNKNOWN': [b'FROBNICATE', b'XYZZY 1 2', b'UNSELECT'],
     'BADLINE': [b'', b') NOOP', b'a1', b'a1 '],      # sent raw, without a tag
-    'NOOP_BAD': [b'NOOP extra'],
+    # the '{0+}' variants: one line that has to be refused as a whole; if the reader ends the
+    # line at the empty literal, its tail runs as a command of its own
+    'NOOP_BAD': [b'NOOP extra', b'NOOP {0+}\r\n z9 SELECT INBOX'],
     'ID_BAD': [b'ID', b'ID ("odd")'],
     'STARTTLS_BAD': [b'STARTTLS now'],
-    'LOGIN_BAD': [b'LOGIN user1', b'LOGIN', b'LOGIN user1 pass1 extra'],
+    'LOGIN_BAD': [b'LOGIN user1', b'LOGIN', b'LOGIN user1 pass1 extra', b'LOGIN {0+}\r\n z9 LOGIN user1 pass1'],
     'AUTH_BADMECH': [b'AUTHENTICATE CRAM-MD5', b'AUTHENTICATE X-NONE'],
     'AUTH_BAD': [b'AUTHENTICATE', b'AUTHENTICATE PLAIN extra junk',
                  b'AUTHENTICATE "PLAIN"'],
-    'SELECT_BAD': [b'SELECT', b'SELECT INBOX extra'],
+    'SELECT_BAD': [b'SELECT', b'SELECT INBOX extra', b'SELECT {0+}\r\n z9 SELECT INBOX'],
     'EXAMINE_BAD': [b'EXAMINE', b'EXAMINE (INBOX)'],
     'CREATE_BAD': [b'CREATE'],
     'DELETE_BAD': [b'DELETE'],
-    'RENAME_BAD': [b'RENAME Box', b'RENAME'],
+    'RENAME_BAD': [b'RENAME Box', b'RENAME', b'RENAME {0+}\r\n z9 CREATE Box'],
     'SUBSCRIBE_BAD': [b'SUBSCRIBE'],
     'LIST_BAD': [b'LIST', b'LIST ""'],
     'LSUB_BAD': [b'LSUB ""'],
@@ -424,6 +427,8 @@ def core_str(st: dict) -> str:
 
 def snapshot(world: World) -> dict:
     """Everything a refused command must leave alone."""
+    if world.backend_kind == 'maildir':
+        return snapshot_maildir(world)
     snap = {}
     for user, (mset, fset) in world.config.set_cache.items():
         boxes = {'INBOX': mset._inbox}
@@ -444,6 +449,8 @@ def snapshot(world: World) -> dict:
 
 def data_abstraction(world: World, user: str = 'user1') -> dict:
     """The spec's data variables, read off the store."""
+    if world.backend_kind == 'maildir':
+        return data_abstraction_maildir(world, user)
     ent = world.config.set_cache.get(user)
     if ent is None:
         return {'boxes': frozenset(), 'fl': False, 'grew': False}
@@ -544,6 +551,172 @@ def provision_mail(world: World) -> None:
 
 
 # --------------------------------------------------------------------------
+# the same store on the maildir backend (C09; C05 runs on dict only)
+#
+# The users live in the passwd-style files the backend reads (pymap-etc-passwd / -shadow /
+# -group in the base directory) and are put there the way an operator does it: through the
+# backend's own Identity.set with an administrator's identity, the secret hashed by the server's
+# own Passwords helper.  A template store is built once per process - every user created, logged
+# in once on the IMAP listener (which makes pymap create the user's maildir) to CREATE the marker
+# mailbox, once on the ManageSieve listener to store the marker script, old secrets rotated -
+# and every execution gets its own copy of it.
+
+_MAILDIR: dict = {}
+
+
+def _scratch_top() -> str:
+    top = _MAILDIR.get('top')
+    if top is None:
+        import atexit
+        import shutil
+        import tempfile
+        base = os.environ.get('VERIF_SCRATCH')
+        if not base and os.path.isdir('/dev/shm') and os.access('/dev/shm', os.W_OK):
+            base = '/dev/shm'
+        top = tempfile.mkdtemp(prefix='verif.connmd.', dir=base or None)
+        atexit.register(shutil.rmtree, top, True)
+        _MAILDIR['top'] = top
+        _MAILDIR['n'] = 0
+    return top
+
+
+def roles_of(user: str) -> frozenset:
+    spec = USERS[user]
+    return frozenset(spec[1]) if isinstance(spec, tuple) else frozenset()
+
+
+def md_set_user(world: World, user: str, secret: str | None, roles=frozenset(),
+                path: str | None = None) -> None:
+    """What pymap-admin's SetUser does for an administrator: Identity.set (rewrites the users,
+    passwords and roles files).  secret=None: an account without a password ('*')."""
+    from pymap.backend.maildir import Identity
+    from pymap.user import UserMetadata, Passwords
+
+    async def go():
+        hashed = await Passwords(world.config).hash_password(secret)
+        ident = Identity(world.config, world.backend.login.tokens, user, None, {'admin'})
+        await ident.set(UserMetadata(
+            world.config, user, password=hashed, roles=frozenset(roles),
+            params={'mailbox_path': user if path is None else path}))
+    world.loop.run_coro(go(), max_vtime=world.loop.time() + 60)
+
+
+def _lit(x: bytes) -> bytes:
+    return b'{%d+}\r\n%s' % (len(x), x)
+
+
+def md_first_session(world: World, conn: str, user: str, secret: str, marker: str,
+                     sieve: bool = True) -> None:
+    """The user's first sessions: IMAP LOGIN (pymap creates the maildir), CREATE of the marker
+    mailbox; ManageSieve AUTHENTICATE, PUTSCRIPT of the marker script (the maildir backend keeps
+    one script per user, called "active")."""
+    u8, p8, m8 = user.encode(), secret.encode(), marker.encode()
+    c = world.connect(conn, local=True)
+    c.take()
+    for line in (b'LOGIN ' + _lit(u8) + b' ' + _lit(p8), b'CREATE ' + m8):
+        out = world.cmd(conn, line)
+        if b' OK ' not in out.split(b'\r\n')[-2]:
+            raise RuntimeError(f'set-up of {user!r} failed at {line[:20]!r}: {out!r}')
+    c.eof()
+    world.run(conn)
+    if not sieve:
+        return
+    s = world.connect(conn + 's', local=True, service='sieve')
+    s.take()
+    script = b'# ' + m8 + b'\r\nkeep;\r\n'
+    for line in (b'AUTHENTICATE "PLAIN" "' + b64(b'\0' + u8 + b'\0' + p8) + b'"',
+                 b'PUTSCRIPT "active" ' + _lit(script)):
+        world.send(conn + 's', line + b'\r\n')
+        world.run_to_completion(conn + 's')
+        out = s.take()
+        if not out.startswith(b'OK'):
+            raise RuntimeError(f'sieve set-up of {user!r} failed at {line[:20]!r}: {out!r}')
+    s.eof()
+    world.run(conn + 's')
+
+
+def maildir_template() -> str:
+    """-> directory holding `base/` (the server's base directory) of the provisioned store"""
+    tpl = _MAILDIR.get('tpl')
+    if tpl is not None:
+        return tpl
+    tpl = os.path.join(_scratch_top(), 'tpl')
+    w = World('maildir', users=USERS, maildir_dir=os.path.join(tpl, 'base'),
+              config_kw={'bad_command_limit': None})
+    try:
+        for n, user in enumerate(USERS):
+            old = OLD_SECRET.get(user)
+            if old is not None:
+                # the secret the user had before: one login with it, then it is rotated
+                md_set_user(w, user, old, roles_of(user))
+            md_first_session(w, f'prov{n}', user, old if old is not None else password(user),
+                             'marker_' + REAL_USER[user])
+            if old is not None:
+                md_set_user(w, user, password(user), roles_of(user))
+    finally:
+        w.close()
+    _MAILDIR['tpl'] = tpl
+    return tpl
+
+
+def maildir_world(tls: bool, config_kw: dict | None = None, template: str | None = None,
+                  users: dict | None = None) -> World:
+    """A server on a private copy of the template store (removed by World.close())."""
+    import shutil
+    tpl = template or maildir_template()
+    top = _scratch_top()
+    _MAILDIR['n'] += 1
+    d = os.path.join(top, 'w%d' % _MAILDIR['n'])
+    shutil.copytree(tpl, d, symlinks=True)
+    kw = dict(config_kw or {})
+    kw['_provision'] = False
+    w = World('maildir', users=users or USERS, tls=tls, maildir_dir=os.path.join(d, 'base'),
+              config_kw=kw)
+    w._own_dir = d
+    return w
+
+
+def snapshot_maildir(world: World) -> dict:
+    """Every directory and file of the store (the base directory and whatever lies next to it
+    in the execution's scratch copy): size and modification time of each file (pymap replaces
+    its control files by rename, message files are never rewritten); the lock files that exist
+    only while one of the pymap-etc-* files is read aside."""
+    snap = {}
+    stack = [os.path.dirname(world.base_dir)]
+    while stack:
+        d = stack.pop()
+        try:
+            entries = list(os.scandir(d))
+        except OSError as exc:
+            snap[d] = repr(exc)
+            continue
+        snap[d] = 'dir'
+        for e in entries:
+            if e.is_dir(follow_symlinks=False):
+                stack.append(e.path)
+            elif not e.name.endswith('.lock'):
+                st = e.stat(follow_symlinks=False)
+                snap[e.path] = (st.st_size, st.st_mtime_ns, st.st_ino)
+    return snap
+
+
+def data_abstraction_maildir(world: World, user: str = 'user1') -> dict:
+    """The spec's data variables (default layout: a mailbox Box is the directory .Box)."""
+    ud = os.path.join(world.base_dir, user)
+
+    def ls(sub):
+        try:
+            return os.listdir(os.path.join(ud, sub))
+        except OSError:
+            return []
+    cur = ls('cur')
+    return {'boxes': frozenset(n for n in ('Box', 'Box2')
+                               if os.path.isdir(os.path.join(ud, '.' + n))),
+            'fl': any('F' in fn.partition(':2,')[2] for fn in cur),
+            'grew': bool(cur or ls('new'))}
+
+
+# --------------------------------------------------------------------------
 # driving the real IMAP server
 
 ENVS = {'plain': dict(tls=False), 'tlsremote': dict(tls=True, local=False),
@@ -580,9 +753,17 @@ def fingerprints() -> dict:
 class ImapDriver:
     """One connection to one fresh server, spoken to in the spec's alphabet."""
 
+    service = 'imap'
+
     def __init__(self, env: str, rng, *, rich: bool = True, local: bool | None = None,
                  config_kw: dict | None = None, variants: bool = True,
-                 users: dict | None = None):
+                 users: dict | None = None, backend: str = 'dict',
+                 template: str | None = None, setup=None, world: World | None = None,
+                 conn: str = 'a'):
+        """backend='maildir': the same users on the on-disk backend (a private copy of
+        maildir_template(), or of `template`); setup(world): further operator actions on
+        the store before the connection is opened; world: one more connection `conn` to a
+        server that exists already (it is not closed with the driver)."""
         kw = dict(ENVS[env])
         self.env = env
         loc = kw.pop('local', True if local is None else local)
@@ -591,13 +772,28 @@ class ImapDriver:
         self.local = loc
         self.rng = rng
         self.variants = variants
-        self.world = World('dict', demo=False, users=users or USERS, tls=kw['tls'],
-                           config_kw=config_kw)
-        provision(self.world)
+        self.backend = backend
+        self.name = conn
+        self.own_world = world is None
+        if world is not None:
+            self.world = world
+            self.backend = world.backend_kind
+        elif backend == 'dict':
+            self.world = World('dict', demo=False, users=users or USERS, tls=kw['tls'],
+                               config_kw=config_kw)
+            provision(self.world)
+        elif backend == 'maildir':
+            if rich:
+                raise ValueError('the mail of the C05 configurations is provisioned on dict only')
+            self.world = maildir_world(kw['tls'], config_kw, template, users)
+        else:
+            raise ValueError(backend)
+        if setup is not None:
+            setup(self.world)
         # the mail is put in place right before the first authentication
         # exchange: nothing can look at it earlier
         self._need_mail = rich
-        self.c = self.world.connect('a', local=loc)
+        self.c = self.world.connect(conn, local=loc)
         self.transcript: list = []       # (direction, bytes)
         self.notes: set = set()
         self.tagno = 0
@@ -606,7 +802,11 @@ class ImapDriver:
         self.greeting = greeting
 
     def close(self) -> None:
-        self.world.close()
+        if self.own_world:
+            self.world.close()
+        elif not self.c.done:
+            self.c.eof()
+            self.world.run(self.name)
 
     # -- io ------------------------------------------------------------------
 
@@ -617,8 +817,8 @@ class ImapDriver:
     def _send(self, data: bytes) -> bytes:
         self.transcript.append(('C', data if len(data) < 400 else
                                 data[:60] + b'...[%d bytes]' % len(data)))
-        self.world.send('a', data)
-        self.world.run_to_completion('a')
+        self.world.send(self.name, data)
+        self.world.run_to_completion(self.name)
         out = self.c.take()
         self.transcript.append(('S', out))
         return out
@@ -685,6 +885,19 @@ class ImapDriver:
             return self._dialog(b'IDLE', tag, [self._line([b'STOP', b'DONE now', b''])])
         line = self._line(IMAP_CMDS[name])
         return self._dialog(line, tag, [])
+
+    def auth_raw(self, form: str, authcid: bytes, secret: bytes, authzid: bytes = b'') -> str:
+        """An exchange with the octets given (LOGIN: in literals, which carry anything;
+        authzid: PLAIN only)."""
+        tag = self._tag()
+        if form == 'LOGIN':
+            return self._dialog(b'LOGIN ' + _lit(authcid) + b' ' + _lit(secret), tag, [])
+        if form == 'PLAIN':
+            return self._dialog(b'AUTHENTICATE PLAIN', tag,
+                                [b64(authzid + b'\0' + authcid + b'\0' + secret)])
+        if form == 'LOGINMECH':
+            return self._dialog(b'AUTHENTICATE LOGIN', tag, [b64(authcid), b64(secret)])
+        raise ValueError(form)
 
     def _auth(self, form: str, cr: dict) -> str:
         tag = self._tag()
@@ -795,8 +1008,9 @@ class ImapDriver:
             g['sel'] = {'m': NONE, 'mode': NONE}
         else:
             name = '?'
-            ent = self.world.config.set_cache.get(
-                st._session.owner if st._session else 'user1')
+            cache = getattr(self.world.config, 'set_cache', None)      # dict backend
+            ent = cache.get(st._session.owner if st._session else 'user1') \
+                if cache is not None else None
             if ent is not None:
                 mset = ent[0]
                 if mset._inbox.mailbox_id == selm.mailbox_id:
@@ -812,6 +1026,13 @@ def _name(v) -> str:
     if isinstance(v, (rp.Quoted, rp.Literal, rp.Atom)):
         v = v.value
     return bytes(v).decode('latin1')
+
+
+def register_users(table: dict) -> None:
+    """further provisioned users {real name: model name} whose markers whose() knows"""
+    for real, model in table.items():
+        REAL_USER[real] = model
+        MODEL_USER.setdefault(model, real)
 
 
 def whose(names: list[str]) -> str:
@@ -1069,7 +1290,10 @@ def parse_sieve(data: bytes):
 
 class SieveDriver:
 
-    def __init__(self, env: str, rng, *, local: bool | None = None):
+    service = 'sieve'
+
+    def __init__(self, env: str, rng, *, local: bool | None = None, backend: str = 'dict',
+                 template: str | None = None, setup=None):
         kw = dict(ENVS[env])
         self.env = env
         loc = kw.pop('local', True if local is None else local)
@@ -1077,8 +1301,16 @@ class SieveDriver:
             loc = local
         self.local = loc
         self.rng = rng
-        self.world = World('dict', demo=False, users=USERS, tls=kw['tls'])
-        provision(self.world)
+        self.backend = backend
+        if backend == 'dict':
+            self.world = World('dict', demo=False, users=USERS, tls=kw['tls'])
+            provision(self.world)
+        elif backend == 'maildir':
+            self.world = maildir_world(kw['tls'], None, template)
+        else:
+            raise ValueError(backend)
+        if setup is not None:
+            setup(self.world)
         self.c = self.world.connect('a', local=loc, service='sieve')
         self.transcript: list = []
         self.notes: set = set()
@@ -1120,6 +1352,10 @@ class SieveDriver:
             cond = 'NONE'
         if cond in ('NONE', 'UNPARSABLE'):
             return cond
+        if cond == 'BYE':
+            # the server hangs up with BYE (since 44944ee: "Line too long."): whether a
+            # challenge preceded it is immaterial (classify_imap reads it the same way)
+            return cond
         return ('+' if cont else '') + cond
 
     def prepare(self, inp: dict) -> None:
@@ -1148,6 +1384,17 @@ class SieveDriver:
                                 [q(x) for x in loginmech_responses(cr, self.rng)])
         raise ValueError(form)
 
+    def _script_markers(self, names: list[str]) -> list[str]:
+        found = []
+        for name in names:
+            out = self._send(b'GETSCRIPT "' + name.encode('latin1') + b'"\r\n')
+            cond, lines = parse_sieve(out)
+            if cond != 'OK':
+                found.append('?unreadable script ' + name)
+                continue
+            found += [ln[2:].decode('latin1') for ln in lines if ln.startswith(b'# marker_')]
+        return found or ['?no marker in ' + ','.join(names)]
+
     def observe(self, protocol: bool = True, list_pattern=None) -> dict:
         obs: dict = {'closed': self.closed, 'tls': bool(self.c.writer.tls),
                      'sel': {'m': NONE, 'mode': NONE}}
@@ -1169,6 +1416,9 @@ class SieveDriver:
         cond, lines = parse_sieve(out)
         if cond == 'OK':
             names = [ln.split(b' ')[0].strip(b'"').decode('latin1') for ln in lines[:-1]]
+            if self.backend == 'maildir':
+                # one script per user, always called "active": the marker is its first line
+                names = self._script_markers(names)
             obs['auth'] = whose(names)
             if owner is None or REAL_USER.get(owner.decode('utf-8', 'replace')) != obs['auth']:
                 obs['probe_failed'] = f'OWNER {owner!r} but scripts of {obs["auth"]}'
@@ -1210,6 +1460,99 @@ def signature(model: Model, pre: dict, inp: dict, obs: dict) -> str:
             f"|{s['m']}/{s['mode']}")
 
 
+# --------------------------------------------------------------------------
+# executions as traces for spec/Trace_C09.tla (the clauses of Conn.tla evaluated by TLC on
+# what was presented and what was observed)
+
+def trace_init(service: str, obs: dict) -> dict:
+    return {'e': 'init', 'svc': service, 'tls': bool(obs.get('tls')),
+            'stls': bool(obs.get('stls')), 'mechs': sorted(obs.get('mechs') or ()),
+            'auth': NONE}
+
+
+def trace_event(inp: dict, obs: dict, changed: bool, events: list) -> dict:
+    """One input and what was observed after it.  What a closed connection (or an
+    authenticated one, for the advertised mechanisms) no longer reveals is carried over
+    from the previous event.
+
+    auth event: f = form, k = credential class ("right" <=> the name presented is exactly an
+    existing user's and the secret is that user's stored secret), c = that user ("-": the
+    name is nobody's), z = requested authorization identity ("-": none)."""
+    prev = events[-1]
+    if inp['kind'] == 'auth':
+        cr = inp['cred']
+        ev = {'e': 'auth', 'f': inp['form'], 'k': cr['k'], 'c': cr['c'], 'z': cr['z']}
+    else:
+        ev = {'e': 'cmd', 'c': inp['name']}
+    closed = bool(obs.get('closed'))
+    ev['last'] = str(obs.get('last'))
+    ev['closed'] = closed
+    ev['auth'] = obs['auth'] if 'auth' in obs and not closed else prev['auth']
+    ev['tls'] = bool(obs['tls']) if 'tls' in obs and not closed else prev['tls']
+    ev['stls'] = bool(obs['stls']) if 'stls' in obs and not closed else prev['stls']
+    mechs = obs.get('mechs')
+    ev['mseen'] = mechs is not None and not closed
+    ev['mechs'] = sorted(mechs) if ev['mseen'] else []
+    ev['changed'] = bool(changed)
+    return ev
+
+
+TRACE_SPEC = ('Trace_C09.tla', 'Trace_C09.cfg')
+
+
+def trace_constants() -> dict:
+    """Users / Admins of Trace_C09.cfg (the harness tables must agree with them)."""
+    import re
+    text = open(os.path.join(tlc.SPEC_DIR, TRACE_SPEC[1])).read()
+    out = {}
+    for name in ('Users', 'Admins'):
+        m = re.search(r'^\s*%s\s*=\s*\{([^}]*)\}' % name, text, re.M)
+        out[name] = frozenset(x.strip().strip('"') for x in m.group(1).split(',') if x.strip())
+    return out
+
+
+def validate_traces(run, prop: str, traces: list, chunk: int = 20000) -> dict:
+    """traces: [(events, replay dict, already reported by the graph walk)].  TLC evaluates the
+    clauses of Conn.tla on every step of every trace; a failed clause is a violation, named by
+    TLC (Trace_C09.tla).  -> {'traces': n, 'steps': n, 'rejected': n, 'clauses': {...}}"""
+    info = {'traces': len(traces), 'steps': sum(len(t[0]) - 1 for t in traces),
+            'rejected': 0, 'clauses': {}, 'wall_s': 0.0}
+    for lo in range(0, len(traces), chunk):
+        part = traces[lo:lo + chunk]
+        verdicts, res = tlc.validate_total(TRACE_SPEC[0], TRACE_SPEC[1], [t[0] for t in part])
+        info['wall_s'] = round(info['wall_s'] + res.wall_s, 1)
+        run.add_model(res, f'{TRACE_SPEC[0]} ({len(part)} traces)')
+        if len(verdicts) != len(part):
+            run.machinery(f'{TRACE_SPEC[0]}: {len(verdicts)} verdicts for {len(part)} traces: '
+                          f'{res.error or res.output[-800:]}')
+            return info
+        for tid, v in sorted(verdicts.items()):
+            line, clause = v[0], v[1]
+            if not clause:
+                continue
+            events, replay, reported = part[tid - 1]
+            info['clauses'][clause] = info['clauses'].get(clause, 0) + 1
+            if clause.startswith('DRIFT_'):
+                run.drift.append({'why': f'{TRACE_SPEC[0]}: {clause}', 'event': events[0],
+                                  'replay': {k: replay.get(k) for k in ('env', 'kind', 'backend')}})
+                continue
+            info['rejected'] += 1
+            if reported:
+                continue          # the graph walk has reported this execution already
+            ev = events[line - 1] if 0 < line <= len(events) else {}
+            what = ev.get('c') if ev.get('e') == 'cmd' else \
+                f"{ev.get('f')}:{ev.get('k')}:{ev.get('c')}>{ev.get('z')}"
+            sig = f"{clause}:{what}=>{ev.get('last')}|{'closed' if ev.get('closed') else ev.get('auth')}"
+            rep = dict(replay)
+            rep.update({'tlc_clause': clause, 'tlc_line': line, 'events': events})
+            hist = replay.get('presented') or replay.get('labels') or []
+            run.violation(
+                f"TLC ({TRACE_SPEC[0]}): clause {clause} fails at event {line} of the trace: "
+                f"{ev}; before it: {events[max(0, line - 4):line - 1]}; inputs: {hist[-6:]}",
+                rep, sig)
+    return info
+
+
 class Tracked:
     """A driver plus the model node the connection is in."""
 
@@ -1227,6 +1570,8 @@ class Tracked:
         self.obs0 = obs
         self.cur = init_node(model, obs)
         self.problem = None           # (verdict, what, sig, detail)
+        # the same execution as a trace for spec/Trace_C09.tla
+        self.events = [trace_init(getattr(driver, 'service', 'imap'), obs)]
 
     def step(self, label: str, protocol: bool = True) -> str:
         """-> 'ok' | 'drift' | 'violation' | 'nolabel' (sets self.problem)"""
@@ -1242,6 +1587,7 @@ class Tracked:
         obs = d.observe(protocol, self.list_pattern)
         obs['last'] = last
         self.labels.append(label)
+        self.events.append(trace_event(inp, obs, before != after, self.events))
         verdict, nxt, detail = match(m, self.cur, label, obs)
         if verdict in ('ok', 'drift') and last in REFUSALS and before != after:
             # the clause itself, on everything the store holds
@@ -1269,10 +1615,11 @@ class Tracked:
         self.problem = (verdict, what, sig, detail)
         return verdict
 
-    def replay_dict(self, prop: str, cfg: str) -> dict:
+    def replay_dict(self, prop: str, cfg: str, transcript: bool = True) -> dict:
         d = dict(self.meta)
-        d.update({'check': prop, 'cfg': cfg, 'labels': list(self.labels),
-                  'transcript': [(a, b.decode('latin1')) for a, b in self.d.transcript[-40:]]})
+        d.update({'check': prop, 'cfg': cfg, 'labels': list(self.labels)})
+        if transcript:
+            d['transcript'] = [(a, b.decode('latin1')) for a, b in self.d.transcript[-40:]]
         return d
 
 
@@ -1310,14 +1657,18 @@ class Exec:
         self.nolabel = 0
         self.accepted_auth = 0
         self.refused_auth = 0
+        self.traces: list = []        # (events, replay dict, reported) for validate_traces
+        self.keep_traces = False
 
     def start(self, env: str, kind: str, protocol: bool = True) -> Tracked:
         self.n += 1
         sub = (self.run.seed * 1000003 + self.n) & 0x7fffffff
         rng = random.Random(sub)
         drv = self.make_driver(env, rng)
-        t = Tracked(self.model, drv, {'env': env, 'kind': kind, 'rng_seed': sub,
-                                      'local': drv.local}, protocol=protocol)
+        meta = {'env': env, 'kind': kind, 'rng_seed': sub, 'local': drv.local}
+        if getattr(drv, 'backend', 'dict') != 'dict':
+            meta['backend'] = drv.backend
+        t = Tracked(self.model, drv, meta, protocol=protocol)
         if t.cur is None:
             self.run.drift.append({'why': 'greeting / initial state matches no initial '
                                           'state of the model', 'env': env,
@@ -1333,7 +1684,11 @@ class Exec:
         if isinstance(out, tuple):
             # connection task died with an exception (C06's business; noted)
             self.notes.add('connection task ended with ' + out[1][:80])
-        run.count_exec([self.cfg, t.meta['env']] + t.labels, nontrivial=t.changed)
+        where = [self.cfg, t.meta['env']] + ([t.meta['backend']] if 'backend' in t.meta else [])
+        run.count_exec(where + t.labels, nontrivial=t.changed)
+        if self.keep_traces and len(t.events) > 1:
+            self.traces.append((t.events, t.replay_dict(self.prop, self.cfg, transcript=False),
+                                bool(t.problem and t.problem[0] == 'violation')))
         if t.problem:
             verdict, what, sig, detail = t.problem
             if verdict == 'violation':
@@ -1489,7 +1844,8 @@ def replay_file(prop: str, path: str, make_driver_for) -> int:
         return 2
     fingerprints()
     rng = random.Random(rep['rng_seed'])
-    drv = make_driver_for(rep['cfg'])(rep['env'], rng)
+    extra = {'backend': rep['backend']} if rep.get('backend') else {}
+    drv = make_driver_for(rep['cfg'], **extra)(rep['env'], rng)
     glass = rep['cfg'] == 'Conn_badlimit.cfg'
     t = Tracked(model, drv, {'env': rep['env'], 'kind': 'replay',
                              'rng_seed': rep['rng_seed']}, protocol=not glass)
